@@ -132,11 +132,56 @@ theorem c18_size_ctors (d : Option Bytes) (path : Bytes) (hd : (d.getD []).lengt
     (∃ r, decode (wrapData d) = some r ∧ fileSize r = (d.getD []).length) ∧
     (∃ r, decode (symlinkData path) = some r ∧ fileSize r = path.length) := by
   constructor
-  · refine ⟨_, decode_encode _ ⟨by simp, ?_, by simp, by simp, by simp, by simp, by simp⟩ h1, ?_⟩
+  · refine ⟨_, decode_encode _ ⟨by simp, ?_, by simp, by simp, by simp, by simp, by simp, unk_nil⟩ h1, ?_⟩
     · intro v hv; simp at hv; omega
     · simp [fileSize]
-  · refine ⟨_, decode_encode _ ⟨by simp, by simp, by simp, by simp, by simp, by simp, by simp⟩ h2, ?_⟩
+  · refine ⟨_, decode_encode _ ⟨by simp, by simp, by simp, by simp, by simp, by simp, by simp, unk_nil⟩ h2, ?_⟩
     simp [fileSize, dataLen]
+
+
+/-- **Unknown fields are retained.** Fields pb.Data does not recognise (other numbers, or a known number
+with another wire type) survive `FSNodeFromBytes`, every setter, and `GetBytes` byte for byte (this is part
+of `c18_codec_rt` through `Wf.unk`); the setters never touch them. -/
+theorem c18_unknown_kept (n : FSNode) (m u x : BitVec 32) (t : Time) (d : Option Bytes) (s : Nat) :
+    (setMode n m).unknown = n.unknown ∧ (setModeFromUnix n u).unknown = n.unknown ∧
+    (setExtendedMode n x).unknown = n.unknown ∧ (setModTime n t).unknown = n.unknown ∧
+    (setData n d).unknown = n.unknown ∧ (addBlockSize n s).unknown = n.unknown := by
+  refine ⟨?_, ?_, ?_, ?_, rfl, rfl⟩
+  · simp only [setMode, setModeFromUnix]; split <;> rfl
+  · simp only [setModeFromUnix]; split <;> rfl
+  · simp only [setExtendedMode]; split <;> rfl
+  · simp only [setModTime]; split <;> rfl
+
+/-- **Metadata message.** `MetadataFromBytes(BytesForMetadata(&Metadata{MimeType, Size}))` returns the
+MimeType (any byte string; the Go code does not restore `Size`). -/
+theorem c18_metadata_rt (mime : Bytes) (size : Nat) (hs : size < 2 ^ 64)
+    (hlen : (bytesForMetadata mime size).length < 2 ^ 64) :
+    metadataFromBytes (bytesForMetadata mime size) = some mime := by
+  have hm : mime.length < 2 ^ 64 := by
+    have h1 : (bytesForMetadata mime size).length =
+        (encodeMsg (toFields { type := 3, data := some (encodeMsg [Field.byts 1 mime]), filesize := some size })).length := by
+      simp [bytesForMetadata, encode]
+    have h2 := Field.encode_length_le_of_mem (f := Field.byts 2 (encodeMsg [Field.byts 1 mime]))
+      (fs := toFields { type := 3, data := some (encodeMsg [Field.byts 1 mime]), filesize := some size })
+      (by simp [toFields, optField])
+    have h3 := Field.bytes_length_le 2 (encodeMsg [Field.byts 1 mime])
+    have h4 := Field.bytes_length_le 1 mime
+    have h5 : (encodeMsg [Field.byts 1 mime]).length = (Field.mk 1 (.bytes mime)).encode.length := by
+      simp [encodeMsg, Field.byts]
+    have h6 : (Field.byts 2 (encodeMsg [Field.byts 1 mime])).encode.length =
+        (Field.mk 2 (.bytes (encodeMsg [Field.byts 1 mime]))).encode.length := rfl
+    omega
+  have hw : Wf { type := 3, data := some (encodeMsg [Field.byts 1 mime]), filesize := some size } :=
+    ⟨by simp, by intro v hv; simp at hv; omega, by simp, by simp, by simp, by simp, by simp, unk_nil⟩
+  unfold metadataFromBytes
+  rw [show bytesForMetadata mime size = encode _ from rfl, decode_encode _ hw hlen]
+  have hi : decodeMsg (encodeMsg [Field.byts 1 mime]) = some [Field.byts 1 mime] :=
+    decodeMsg_encodeMsg _ (by
+      intro f hf
+      simp at hf; subst hf
+      exact ⟨by simp [Field.byts], by simp [Field.byts], hm⟩)
+  simp only [Field.byts] at hi
+  simp [Field.byts, hi, lastBytes?]
 
 /-! ### non-vacuity: concrete instances -/
 
@@ -154,6 +199,15 @@ example : modeOf exNode = 0x808001ED#32 ∧ modTime exNode = ⟨-2, 500000000⟩
 example : Tracked (addBlockSize (setData (newFSNode 2) (some [1, 2, 3])) 262144) :=
   .addBlockSize _ (by decide) (.setData _ (.new 2 (by decide)))
 example : fileSize (addBlockSize (setData (newFSNode 2) (some [1, 2, 3])) 262144) = 262147 := by decide
+/-- a node carrying a field pb.Data does not know (number 9, varint 1): `Wf.unk` holds for it, the field
+comes back from a reload and stays at the end of the encoding after SetMode -/
+example : ∃ prs, decodeMsgRaw ([0x48, 0x01] : Bytes) = some prs ∧ ∀ p ∈ prs, isKnown p.1 = false :=
+  ⟨[(⟨9, .varint 1⟩, [0x48, 0x01])], by decide, by decide⟩
+example : (decode [0x08, 2, 0x48, 0x01, 0x18, 0]).map (·.unknown) = some [0x48, 0x01] := by decide +kernel
+example : (decode [0x08, 2, 0x48, 0x01, 0x18, 0]).map (fun n => encode (setMode n 0x1A4#32)) =
+    some [0x08, 2, 0x18, 0, 0x38, 0xA4, 0x03, 0x48, 0x01] := by decide +kernel
+example : metadataFromBytes (bytesForMetadata [116, 101, 120, 116] 7) = some [116, 101, 120, 116] := by
+  decide +kernel
 end Examples
 
 end C18
